@@ -358,7 +358,19 @@ func (eng *Engine) initExterns() {
 			k(st, x.freshResult(st, "r."+name, resT))
 		}
 	}
-	for _, n := range []string{"time.Now", "time.Since", "time.Unix", "time.(Time).Add", "time.(Time).After", "time.(Time).Before", "time.(Time).Sub", "time.(Time).Unix", "time.(Time).UnixNano", "time.(Duration).Seconds", "time.(Duration).String"} {
+	E["time.Now"] = func(x *Exec, st *State, cc *ssa.CallCommon, fn *ssa.Function, args []Val, resT types.Type, k func(*State, Val)) {
+		tb(x, timeNote)
+		v := x.freshResult(st, "r.Now", resT)
+		st.assume(UF(SB, "time.nonzero", flatten(st, v)...))
+		k(st, v)
+	}
+	E["time.(Time).Add"] = func(x *Exec, st *State, cc *ssa.CallCommon, fn *ssa.Function, args []Val, resT types.Type, k func(*State, Val)) {
+		tb(x, timeNote+"; t.Add(d) is the zero time only if t is")
+		v := x.freshResult(st, "r.Add", resT)
+		st.assume(Eq(UF(SB, "time.nonzero", flatten(st, v)...), UF(SB, "time.nonzero", flatten(st, args[0])...)))
+		k(st, v)
+	}
+	for _, n := range []string{"time.Since", "time.Unix", "time.(Time).After", "time.(Time).Before", "time.(Time).Sub", "time.(Time).Unix", "time.(Time).UnixNano", "time.(Duration).Seconds", "time.(Duration).String"} {
 		E[n] = fresh(timeNote)
 	}
 	E["time.(Duration).Nanoseconds"] = func(x *Exec, st *State, cc *ssa.CallCommon, fn *ssa.Function, args []Val, resT types.Type, k func(*State, Val)) {
@@ -414,6 +426,17 @@ func (eng *Engine) initExterns() {
 		done := st.allocRef()
 		st.chanInit(done, TInt(0))
 		st.assume(Eq(UF(SI, "ctx.done", ctx), done))
+		// deadlines: WithTimeout/WithDeadline contexts have one, Background has none, WithCancel inherits
+		switch {
+		case fn != nil && (fn.Name() == "WithTimeout" || fn.Name() == "WithDeadline"):
+			st.assume(UF(SB, "ctx.hasdeadline", ctx))
+		case fn != nil && fn.Name() == "WithCancel" && len(args) > 0:
+			if p, ok := args[0].(Term); ok {
+				st.assume(Eq(UF(SB, "ctx.hasdeadline", ctx), UF(SB, "ctx.hasdeadline", p)))
+			}
+		default:
+			st.assume(Not(UF(SB, "ctx.hasdeadline", ctx)))
+		}
 		if tup, ok := resT.(*types.Tuple); ok && tup.Len() == 2 {
 			cancel := st.allocRef()
 			st.assume(Eq(cloFn(cancel), x.declare("fn.ctx.cancel", SI)))
@@ -422,6 +445,19 @@ func (eng *Engine) initExterns() {
 			return
 		}
 		k(st, ctx)
+	}
+	E["errgroup.WithContext"] = func(x *Exec, st *State, cc *ssa.CallCommon, fn *ssa.Function, args []Val, resT types.Type, k func(*State, Val)) {
+		tb(x, ctxNote+"; errgroup.WithContext derives a cancellable context that inherits the parent's deadline")
+		g := st.allocRef()
+		ref := st.allocRef()
+		ctx := st.mkIface(x.declare("tag.ctx", SI), ref)
+		done := st.allocRef()
+		st.chanInit(done, TInt(0))
+		st.assume(Eq(UF(SI, "ctx.done", ctx), done))
+		if p, ok := args[0].(Term); ok {
+			st.assume(Eq(UF(SB, "ctx.hasdeadline", ctx), UF(SB, "ctx.hasdeadline", p)))
+		}
+		k(st, &TupleVal{[]Val{g, ctx}})
 	}
 	E["context.Background"] = newCtx
 	E["context.WithTimeout"] = newCtx
@@ -443,7 +479,17 @@ func (eng *Engine) initExterns() {
 		st.assume(Eq(Neq(e, TInt(0)), closed))
 		k(st, e)
 	}
-	E["context.Context.Deadline"] = fresh(ctxNote)
+	E["context.Context.Deadline"] = func(x *Exec, st *State, cc *ssa.CallCommon, fn *ssa.Function, args []Val, resT types.Type, k func(*State, Val)) {
+		tb(x, ctxNote+"; Deadline() is a function of the context, non-zero exactly when the context has a deadline")
+		tup := resT.(*types.Tuple)
+		tv := st.freshVal("ctx.deadline", tup.At(0).Type())
+		if sv, ok := tv.(*StructVal); ok {
+			fillFromFn(st, sv, "ctx.deadline", []Term{args[0].(Term)})
+		}
+		has := UF(SB, "ctx.hasdeadline", args[0].(Term))
+		st.assume(Eq(UF(SB, "time.nonzero", flatten(st, tv)...), has))
+		k(st, &TupleVal{[]Val{tv, has}})
+	}
 
 	// ---- reflect (one pattern: ValueOf(x).FieldByName("lit")) ----
 	const reflNote = "reflect: ValueOf(x).FieldByName(lit) is the field go/types resolves by promotion on the dynamic type (refl.hasfield/refl.field uninterpreted, tied to known dynamic types at MakeInterface)"
